@@ -978,7 +978,7 @@ def binding(ctx):
                 ok2 = bool(root_first and plain and mods and ck and okr2 and every2 and not S2['skips'])
             det += ' ;; stage1 %s stage2 %s' % (ok1, ok2)
         ok = ok1 and ok2
-    ctx.ob(['C11', 'C19', 'C10', 'C09'], 'R-EXPR', 'C11-D3|candidate-order', ok,
+    ctx.ob(['C11', 'C19', 'C10', 'C09', 'C05'], 'R-EXPR', 'C11-D3|candidate-order', ok,
            'candidates are tried as: imported types whose last segment is the name, last import first; else root::name (built-ins); else <module>::name for the scope modules in scope order; first hit wins: %s' % det, loc(rs.span))
     sc = [f for f in P.fns.values() if f.id.endswith('module::Module::scope')]
     oks = False
